@@ -24,6 +24,9 @@
    SigmaSplineModel.  checks/c02_sigma.py: through the public API, a self-calibration whose correlated
    parameter has its sigma(f) given on a 2-point grid and as the same line sampled at every calibration
    frequency must give the same solved parameters and corrected device.
+6. The frequency side of vnacal_apply (checks/c10_apply.py): ApplyFreqModel / ApplyFreqRange against the
+   unmodified vnacal_apply.c compiled with its _vnacal_rfi calls tapped (harness/apply_wb.c): verdicts on
+   the request vector, the call sequence and the segment variable before / after every call, values.
 """
 import os
 import re
@@ -40,7 +43,8 @@ AMP_MAX = 100.0
 AMP_SKIP = 1e7
 RFI_CONSTS = [None, None, 5]
 # the chain model: its comparison operators come from Gen/RangeGen.v
-GEN_DEPENDENT = ["Interp/FrangeModel.v", "Interp/FrangeProofs.v", "Interp/FrangeExamples.v", "Interp/FrangeRun.v"]
+GEN_DEPENDENT = ["Interp/FrangeModel.v", "Interp/FrangeProofs.v", "Interp/FrangeExamples.v", "Interp/FrangeRun.v",
+                 "Interp/ApplyFreqRange.v", "Interp/ApplyFreqRangeProofs.v"]
 
 
 # ----------------------------------------------------------------------------- number helpers
@@ -790,7 +794,8 @@ def run(ctx):
     vfiles = ["Interp/QOrd.v", "Interp/RfiModel.v", "Interp/SplineModel.v", "Interp/FrangeBase.v", "Gen/RangeGen.v", "Interp/RfiProofs.v",
               "Interp/SplineProofs.v", "Interp/RangeProofs.v", "Interp/RfiRational.v", "Interp/C10Lemmas.v", "Interp/RfiWindow.v",
               "Interp/RfiRationalN.v", "Interp/RfiRationalEx.v"] + GEN_DEPENDENT + \
-             ["Interp/SigmaSplineModel.v", "Interp/SigmaSplineProofs.v", "Interp/SigmaSplineExamples.v", "Properties_C10.v"]
+             ["Interp/SigmaSplineModel.v", "Interp/SigmaSplineProofs.v", "Interp/SigmaSplineExamples.v",
+              "Interp/ApplyFreqModel.v", "Interp/ApplyFreqProofs.v", "Interp/ApplyFreqExamples.v", "Properties_C10.v"]
     vfiles = [v for v in vfiles if os.path.exists(os.path.join(vplib.COQDIR, v))]
     if tr is None:
         # Gen/RangeGen.v on disk is stale: the theorems that depend on it are not discharged
@@ -931,6 +936,10 @@ def run(ctx):
     import c10_chains
     c10_chains.check_chains(ctx, R, rng, broken, 70 if not thorough else 700, corpus_chain)
     ctx.log("parameter chains compared")
+    # ---------------------------------------------------------------- 6. the frequency side of vnacal_apply
+    import c10_apply
+    c10_apply.check_apply(ctx, R, rng, broken, 10 if not thorough else 80)
+    ctx.log("apply interpolation loop compared (white box + public path)")
     import c02_sigma
     c02_sigma.run_part(ctx)
     ctx.log("two descriptions of one sigma(f) compared (public API)")
